@@ -60,7 +60,13 @@ VARIABLES conn,   \* the connected route, or NoConn
 vars == <<conn, subs, out, last>>
 
 Markets == 1..NMarkets
+\* what an item states about the side:  trades / liquidations / L2 levels: the taker (book) side;
+\* L1 (top of book) routes: which book side holds (price, amount) - "buy" / "sell": both sides are
+\* stated (the named one holds the item's values); "bid_only" / "ask_only": the message states an
+\* empty other side (price 0), and the event must state exactly that: the other side absent.
 Sides   == {"buy", "sell"}
+L1Sides == {"buy", "sell", "bid_only", "ask_only"}
+SidesOf(c) == IF c[2] = "l1" THEN L1Sides ELSE Sides
 
 (***************************************************************************)
 (* The quantifier: every (ExchangeId, SubKind) arm of DynamicStreams::init *)
@@ -120,12 +126,12 @@ Ev(key, ex, p, a, s, t) == [k |-> "ev", key |-> key, ex |-> ex, p |-> p, a |-> a
 Unid == [k |-> "unid", key |-> 0, ex |-> "", p |-> 0, a |-> 0, s |-> "", t |-> 0]
 
 Item(p, a, s, t) == [p |-> p, a |-> a, s |-> s, t |-> t]
-Items == {Item(p, a, s, t) : p \in PRICE, a \in AMOUNT, s \in Sides, t \in TIME}
+Items(c) == {Item(p, a, s, t) : p \in PRICE, a \in AMOUNT, s \in SidesOf(c), t \in TIME}
 \* sequences (explicit tuples, so that ToJson prints arrays) of at most three items
 Prod(ss) == CASE Len(ss) = 1 -> {<<x>> : x \in ss[1]}
               [] Len(ss) = 2 -> {<<x, y>> : x \in ss[1], y \in ss[2]}
               [] Len(ss) = 3 -> {<<x, y, z>> : x \in ss[1], y \in ss[2], z \in ss[3]}
-Batches == UNION {Prod([i \in 1..n |-> Items]) : n \in 1..MaxBatch}
+Batches(c) == UNION {Prod([i \in 1..n |-> Items(c)]) : n \in 1..MaxBatch}
 
 AmountsAllowed(c, f) == IF c \in SignOpen /\ f.s = "sell" THEN {f.a, 0 - f.a} ELSE {f.a}
 TimeExpected(c, f)   == IF c \in NoTime THEN 0 ELSE f.t
@@ -167,6 +173,7 @@ SubscribeA(c, S, off) ==
 
 MessageSubscribedA(m, fs) ==
   /\ conn # NoConn
+  /\ \A i \in DOMAIN fs : fs[i].s \in SidesOf(conn)
   /\ m \in DOMAIN subs
   /\ out' \in AllowedOut(conn, subs, m, fs)
   /\ last' = Step("Message", conn, {}, 0, m, fs)
@@ -174,6 +181,7 @@ MessageSubscribedA(m, fs) ==
 
 MessageUnsubscribedA(m, fs) ==
   /\ conn # NoConn
+  /\ \A i \in DOMAIN fs : fs[i].s \in SidesOf(conn)
   /\ m \in Markets \ DOMAIN subs
   /\ out' \in AllowedOut(conn, subs, m, fs)
   /\ last' = Step("Message", conn, {}, 0, m, fs)
@@ -187,8 +195,8 @@ DisconnectA ==
   /\ last' = Step("Disconnect", conn, {}, 0, 0, <<>>)
 
 Subscribe           == \E c \in Conns, S \in SUBSET Markets, off \in KeyOffs : SubscribeA(c, S, off)
-MessageSubscribed   == \E m \in Markets, fs \in Batches : MessageSubscribedA(m, fs)
-MessageUnsubscribed == \E m \in Markets, fs \in Batches : MessageUnsubscribedA(m, fs)
+MessageSubscribed   == \E m \in Markets, fs \in Batches(conn) : MessageSubscribedA(m, fs)
+MessageUnsubscribed == \E m \in Markets, fs \in Batches(conn) : MessageUnsubscribedA(m, fs)
 Disconnect          == DisconnectA
 
 Next == Subscribe \/ MessageSubscribed \/ MessageUnsubscribed \/ Disconnect
